@@ -47,7 +47,8 @@ for f_ in soaks:
             only_here = only
         if only_here:
             r["only"] = only_here
-            r["status"] = "restricted"
+            if "C03" not in only_here:
+                r["status"] = "restricted"
         recs[(r["wid"], r["sched"])] = r
 pts = collections.defaultdict(set)   # (prop, cls) -> {(wid, sid)}
 outs = collections.defaultdict(dict)  # wid -> outcome -> [sids]
@@ -92,7 +93,18 @@ for (wid, sid), r in recs.items():
         continue
     outs[wid].setdefault(o, []).append(sid)
 findings = []
-splits = sorted(w for w, o in outs.items() if len(o) > 1)
+splits_y = sorted(w for w, o in outs.items()
+                  if len(o) > 1 and w.startswith("geny:"))
+if splits_y:
+    findings.append({
+        "property": "C03", "status": "known",
+        "key": {"violation_class": "outcome-split"},
+        "inputs": [[w, "*"] for w in splits_y],
+        "what": "complete sample of a definition of the relaxed family geny "
+                "(outside fragment F): which language is emitted depends on "
+                "the schedule: " + ", ".join(splits_y)})
+splits = sorted(w for w, o in outs.items()
+                if len(o) > 1 and not w.startswith("geny:"))
 if splits:
     findings.append({
         "property": "C03", "status": "known",
@@ -132,8 +144,25 @@ def is_partial(w, sid):
 
 
 for (prop, cls), s in sorted(pts.items()):
+    # relaxed family geny (outside fragment F), complete samples
+    resty = sorted((w, sid) for w, sid in s if w.startswith("geny:"))
+    if resty:
+        per_w = collections.Counter(w for w, _ in resty)
+        everywhere = {w for w, n in per_w.items() if n == n_sids[w]}
+        findings.append({
+            "property": prop, "status": "known",
+            "key": {"violation_class": cls},
+            "inputs": [[w, "*"] for w in sorted(everywhere)] + [
+                [w, sid] for w, sid in resty if w not in everywhere],
+            "what": "complete sample of a definition of the relaxed family "
+                    "geny (outside fragment F: blocks back to back, a branch "
+                    "or loop body beginning with a block) [" + cls + "]: "
+                    + ", ".join(sorted(per_w))
+                    + f" ({len(resty)} grid points of the soaked grid, "
+                      f"{len(everywhere)} workloads under every schedule)"})
     for partial in (True, False):
         rest = sorted((w, sid) for w, sid in s if w not in CORPUS_ALL
+                      and not w.startswith("geny:")
                       and is_partial(w, sid) == partial)
         if not rest:
             continue
